@@ -69,6 +69,25 @@ check("C11", "tool-sim", "exploration",
       "Permutations and trees are sampled; the host's own order is removed by sorting before permuting.",
       "deterministic simulation: seeded permutation of directory enumeration order", "DESIGN.md 5/C11")
 
+check("C01", "tool-sim", "exploration",
+      "gensquashfs packs generated trees (pack file and real pack dir, hostile names, boundary-sized contents, hard links, xattrs, every "
+      "inode type, 300/700-entry directories) under a seeded configuration swarm (compressor + extra options, block size, -e -T -B -d "
+      "--set-uid/gid --all-root -k -x -H, SOURCE_DATE_EPOCH, -j/-Q, store-mode proxy) with the scheduler active and, in half of the "
+      "runs, benign faults (short I/O, EINTR, readdir permutation, allocator junk). The independent decoder's tree must equal the "
+      "model's expected tree; rdsquashfs -u (as root), -c and -d must agree; over-long names must be refused. Claimed only as far as "
+      "the generator reaches: DST contributes schedules/configurations/benign faults, not input enumeration.",
+      "Trusted: py/sqfsdec.py as independent reading of doc/format.adoc; the tree model's documented-option semantics (root and implied "
+      "directories take --defaults, not --set-uid).",
+      "deterministic simulation: seeded configuration/schedule/benign-fault search with an independent decoder as oracle", "DESIGN.md 5/C01")
+
+check("C03", "validator over simulated runs", "exploration",
+      "The independent validator is evaluated on every image the C01-style exploration produces (gensquashfs, all compressors and option "
+      "combinations, under schedules and benign faults) plus tar2sqfs images: superblock/layout consistency, padding, stored block sizes, "
+      "contiguity, sorted listings, <=256 entries per header, index entries, inode numbers 1..N, link counts, parents, table references, "
+      "export table. Keyed findings: (tool, compressor, invariant).",
+      "Same trust base as C01; the monitor sees only images the generator and configuration swarm produce.",
+      "deterministic simulation: invariant monitor over all images produced by simulated runs", "DESIGN.md 5/C03")
+
 PENDING = ["C01","C02","C03","C04","C05","C06","C07","C08","C10","C11","C12","C13","C14","C15","C19"]
 NA_REASONS = {
  "C16": "pure relation between two text transducers (describe printer, pack-file tokenizer); no schedule, clock, fault, crash point or history in the statement - deciding it is input enumeration, which deterministic simulation does not do (DESIGN.md section 0)",
@@ -92,7 +111,7 @@ def main():
             "add_only": True,
         },
         "engines": [
-            {"name": "tool-sim", "path": "simos/ + py/pipelines.py", "serves_properties": ["C02", "C11", "C12", "C13", "C14"], "kind_free_text": "each tool's real sources linked with simos under --wrap; one process per simulated run"},
+            {"name": "tool-sim", "path": "simos/ + py/pipelines.py", "serves_properties": ["C01", "C02", "C03", "C11", "C12", "C13", "C14"], "kind_free_text": "each tool's real sources linked with simos under --wrap; one process per simulated run"},
             {"name": "pool-sim", "path": "scn/pool.c", "serves_properties": ["C09"], "kind_free_text": "real threadpool.c under the simos scheduler, many runs per process"},
         ],
         "checks": [CHECKS[k] for k in sorted(CHECKS)],
